@@ -161,8 +161,9 @@ def run(ctx):
                                        'doppler_smearing': FALSE}, no_inline=(FR + 'get_index',))
             mg = [e for e in I2.events if e.kind == 'call' and e.data.get('name') == 'numpy.meshgrid' and e.func.short == fi.short]
             ctx.require(mg, 'add_signal: the frequency/time mesh (np.meshgrid) was not found')
-            want2 = ctx.spec(fi, 'np.linspace(self.fs[LO:HI][0], self.fs[LO:HI][0] + len(self.fs[LO:HI]) * self.df, '
-                                 'len(self.fs[LO:HI]) * f_subsamples, endpoint=False)', env={'LO': lo, 'HI': hi})
+            # (an empty range -- wholly outside the band -- has nothing to sub-sample and must not be indexed)
+            want2 = ctx.spec(fi, 'ITE(len(self.fs[LO:HI]) > 0, np.linspace(self.fs[LO:HI][0], self.fs[LO:HI][0] + len(self.fs[LO:HI]) * self.df, '
+                                 'len(self.fs[LO:HI]) * f_subsamples, endpoint=False), self.fs[LO:HI])', env={'LO': lo, 'HI': hi})
             ctx.formula('AGREE', f'[{tag}, integrate_f_profile] the sub-sampled frequencies start at the first written column and span '
                         'exactly the written columns', fi, mg[0].data['args'][0], want2, node=mg[0].node,
                         construct='np.meshgrid(restricted_fs, ...) [sub-sampled grid]')
